@@ -35,6 +35,13 @@ func vCheckBessImage(sessions []PFCPSession, srv *vBessServer, tag string) {
 			rules, err := CreatePortRangeCartesianProduct(p.appFilter.srcPortRange, p.appFilter.dstPortRange)
 			vAssert(tag+":live-pdr-has-a-representable-port-range", err == nil)
 			wantPDR += len(rules)
+			// the harness's sessions all name their UE address: the PDR matches it
+			// exactly, on the side the UE is on (inner source uplink, destination downlink)
+			if p.srcIface == access {
+				vAssert(tag+":uplink-pdr-matches-exactly-the-ue-address", p.ueAddress != 0 && p.appFilter.srcIP == p.ueAddress && p.appFilter.srcIPMask == 0xffffffff)
+			} else if p.srcIface == core {
+				vAssert(tag+":downlink-pdr-matches-exactly-the-ue-address", p.ueAddress != 0 && p.appFilter.dstIP == p.ueAddress && p.appFilter.dstIPMask == 0xffffffff)
+			}
 			var qerID uint64
 			if len(p.qerIDList) > 0 {
 				qerID = uint64(p.qerIDList[0])
